@@ -232,8 +232,9 @@ def merge(results: list) -> dict:
         for k, v in r.get("info", {}).items():
             if isinstance(v, list):
                 cur = tot["info"].setdefault(k, [])
+                cap = 200000 if k == "digests" else 400
                 for x in v:
-                    if x not in cur and len(cur) < 400:
+                    if len(cur) < cap and (k == "digests" or x not in cur):
                         cur.append(x)
             elif isinstance(v, (int, float)):
                 tot["info"][k] = tot["info"].get(k, 0) + v
